@@ -94,8 +94,8 @@ struct Ctx : public sim::SimulatorCallbacks {
 	int nextPid = 0;
 	std::vector<SimProcess::Handle> forked; // global fork table
 
-	std::string val(const hlim::NodePort &np) {
-		auto st = sim->getValueOfOutput(np);
+	std::string val(const hlim::NodePort &np) { return fmt(sim->getValueOfOutput(np)); }
+	std::string fmt(const sim::DefaultBitVectorState &st) {
 		bool allDef = true, anyDef = false;
 		for (size_t i = 0; i < st.size(); i++) { bool d = st.get(sim::DefaultConfig::DEFINED, i); allDef &= d; anyDef |= d; }
 		if (allDef) { unsigned v = 0; for (size_t i = 0; i < st.size(); i++) if (st.get(sim::DefaultConfig::VALUE, i)) v |= 1u << i; return std::to_string(v); }
@@ -149,9 +149,8 @@ static SimFunction<int> doStep(Ctx *cx, int pid, Step st)
 			cx->log(pid, "wake S");
 			break;
 		case 'R': {
-			sim::DefaultBitVectorState v;
-			// through the same path as simu(sig).eval(): SimulationContext::getSignal -> simProcGetValueOfOutput
-			auto val = cx->val(cx->sigs[st.a]);
+			// the frontend read path: simu(outputPin).eval() -> SimulationContext::getSignal -> simProcGetValueOfOutput
+			auto val = cx->fmt(simu(cx->outs[st.a]).eval());
 			cx->log(pid, "R" + std::to_string(st.a) + "=" + val);
 		} break;
 		case 'W':
